@@ -637,6 +637,10 @@ func runFrame(fr *frame) {
 			return // let interpreter crash
 		}
 		p := classifyPanic(recover())
+		if ap, ok := p.(abortPath); ok && strings.HasPrefix(ap.why, "engine:") && !strings.Contains(ap.why, " target: ") {
+			ap.why += " target: " + targetStack(fr)
+			p = ap
+		}
 		if isControl(p) {
 			panic(p)
 		}
@@ -992,4 +996,13 @@ func fieldAccessInfo(instr *ssa.FieldAddr) (string, bool, bool) {
 	}
 	fieldAccCache[instr] = r
 	return r.name, r.write, r.skip
+}
+
+// targetStack names the interpreted functions on the call stack (innermost first).
+func targetStack(fr *frame) string {
+	var out []string
+	for f := fr; f != nil && len(out) < 10; f = f.caller {
+		out = append(out, f.fn.String())
+	}
+	return strings.Join(out, " < ")
 }
